@@ -63,8 +63,8 @@ func alwaysEmits(t reflect.Type) bool {
 //   - pointers to structs are not nil (a nil pointer is not a nested struct value);
 //   - list elements and pointer targets have a non-empty encoding (an element that encodes to nothing
 //     cannot be represented in TLV8 at all);
-//   - elements of an inline list with several fields emit every field (hc omits empty strings, so an
-//     element with an omitted field is indistinguishable from its neighbours' fields on the wire).
+//     (An element of an inline list with several fields may omit some of them - empty strings and byte slices are not
+//     written - as long as something is left of it: the separator keeps it apart from its neighbours.)
 func valid(v reflect.Value) bool {
 	for _, f := range fields(v.Type()) {
 		fv := v.Field(f.idx)
@@ -83,18 +83,10 @@ func valid(v reflect.Value) bool {
 				return false
 			}
 		case "tagged-list", "inline-list":
-			multi := f.inline && len(fields(f.typ.Elem())) > 1
 			for i := 0; i < fv.Len(); i++ {
 				e := fv.Index(i)
 				if len(refEncode(e)) == 0 || !valid(e) {
 					return false
-				}
-				if multi {
-					for _, ef := range fields(e.Type()) {
-						if k := kindOf(ef); (k == "string" || k == "bytes") && e.Field(ef.idx).Len() == 0 {
-							return false
-						}
-					}
 				}
 			}
 		}
@@ -246,7 +238,7 @@ func (g *gen) fill(v reflect.Value, nonEmpty bool, depth int) {
 			ne := nonEmpty
 			if k := kindOf(f); k == "tagged-list" || k == "inline-list" {
 				et := f.typ.Elem()
-				if !alwaysEmits(et) || (f.inline && len(fields(et)) > 1) {
+				if !alwaysEmits(et) {
 					ne = true
 				}
 			}
